@@ -135,6 +135,44 @@ def _alias_only_cycle(nodes):
     return False
 
 
+OPTKINDS = {"opt", "sopt"}
+
+
+def _shared_option_entry(nodes, share):
+    """input-derived: is there a definition j that (a) lies on a by-value cycle whose edge INTO j is an optional member
+    (struct `opt` / enum struct-variant `sopt`: both are the unnamed type Option<Dj>), and (b) is also referred to through
+    an optional member by a definition that is converted earlier (smaller index, or the sharing definition S -> D0)?
+    Then the depth-first search enters the cycle through the shared Option<Dj> node (known finding C07-KF2)."""
+    n = len(nodes)
+
+    def edges(nd):
+        if nd[0] == "alias":
+            return [("alias", nd[1])]
+        return list(nd[1])
+    byval = {i: [t for (k, t) in edges(nodes[i]) if k not in HEAP] for i in range(n)}
+
+    def reaches(a, b):
+        seen, st = set(), [a]
+        while st:
+            u = st.pop()
+            for v in byval[u]:
+                if v == b:
+                    return True
+                if v not in seen:
+                    seen.add(v)
+                    st.append(v)
+        return False
+    for j in range(n):
+        # optional edge into j from a node on a cycle through j
+        on_cycle = any(k in OPTKINDS and t == j and (i == j or reaches(j, i)) for i in range(n) for (k, t) in edges(nodes[i]))
+        if not on_cycle:
+            continue
+        earlier = any(k in OPTKINDS and t == j for i in range(j) for (k, t) in edges(nodes[i]))
+        if earlier or (share and j == 0):
+            return True
+    return False
+
+
 def mk(nodes, share):
     defs = {"D%d" % i: node_schema(nd) for i, nd in enumerate(nodes)}
     if share:
@@ -279,7 +317,8 @@ def execute(cases_, tier, seed):
             c = p["case"]
             res.transitions += 1
             feats = {"n": c["n"], "share": c["share"], "kinds": "+".join(nd[0] for nd in c["nodes"]),
-                     "alias_only_cycle": _alias_only_cycle([_deser(nd) for nd in c["nodes"]])}
+                     "alias_only_cycle": _alias_only_cycle([_deser(nd) for nd in c["nodes"]]),
+                     "shared_option_entry": _shared_option_entry([_deser(nd) for nd in c["nodes"]], c["share"])}
             if wc.compiled is None:
                 continue
             if not wc.compiled:
